@@ -5,12 +5,14 @@
  *           "list":bool,                      print the registry (config::help() + show_aliases()) on stdout and stop
  *           "read0":[[realname,type],...]     items to read right after the Engine creation
  *           "read_end":[[realname,type],...]  items to read after the last op
- *           "ops":[{"how":"parse"|"parse_raw"|"string"|"typed"|"c", "name":..., "value":<string, or typed JSON value for typed/c>,
+ *           "ops":[{"how":"parse"|"parse_raw"|"string"|"typed"|"c"|"poke", "name":..., "value":<string, or typed JSON value for typed/c>,
  *                   "read":[[realname,type],...]}]}       items to read back after the op (type: int|double|boolean|string)
  * answer : one JSON line per step, flushed at once (an op may abort the process through xbt_die/xbt_assert):
  *            {"step":"engine"}                                     the Engine exists (argv was accepted)
  *            {"step":i,"ok":true|false,"exc":"<type>","msg":...,"read":{"name":value,...},"bound":{...}}
- *            ("bound": the C++ variables that a few items are bound to, e.g. sg_precision_timing, Context::stack_size)
+ *            ("bound": the C++ variables that a few items are bound to, e.g. sg_precision_timing, Context::stack_size;
+ *             "vf": for each of the driver's own five test flags vf/..., the number of callback invocations so far and the
+ *             bound variable; "poke" assigns the bound variable of a test flag directly)
  *          doubles are reported as hexfloat strings.  A C++ exception escaping the Engine constructor is reported as
  *            {"step":"engine","exc":...}.
  * Every case runs in a forked child (the configuration is global state and callbacks may abort).  No oracle here.
@@ -63,6 +65,71 @@ static std::string exc_name(const std::exception& e)
 static int run_ops(const json& in);
 
 extern simgrid::config::Flag<double> _smpi_cfg_cpu_threshold;
+
+/* ---- test flags of our own.  The registered items of SimGrid mostly refuse values with xbt_die (the process is gone) and have
+ * idempotent callbacks, so they cannot show whether the configuration engine runs a callback exactly once per setting, or
+ * whether a value refused by an exception is refused every time.  These five items are declared with the public
+ * simgrid::config::Flag<T> API: callbacks that count their invocations, refuse values by throwing, and a bound variable. ---- */
+static int vf_calls[5] = {0, 0, 0, 0, 0};
+static simgrid::config::Flag<int> vf_int_even{"vf/int-even", "verification flag: even integers only (boolean predicate)", 0, [](int v) {
+                                                vf_calls[0]++;
+                                                return v % 2 == 0;
+                                              }};
+static simgrid::config::Flag<int> vf_int_range{"vf/int-range", {"vf/int-range-alias"}, "verification flag: integers of [-100, 100]", 1,
+                                               [](int v) {
+                                                 vf_calls[1]++;
+                                                 if (v < -100 || v > 100)
+                                                   throw std::invalid_argument("vf/int-range: out of [-100, 100]");
+                                               }};
+static simgrid::config::Flag<double> vf_double_pos{"vf/double-pos", {"vf/dpos"}, "verification flag: non-negative doubles", 1.0,
+                                                   [](double v) {
+                                                     vf_calls[2]++;
+                                                     if (not(v >= 0))
+                                                       throw std::range_error("vf/double-pos: negative");
+                                                   }};
+static simgrid::config::Flag<bool> vf_bool{"vf/bool", {"vf/bool-alias"}, "verification flag: any boolean", false,
+                                           [](bool) { vf_calls[3]++; }};
+static simgrid::config::Flag<std::string> vf_string{"vf/string-abc", {"vf/sabc"}, "verification flag: one of a, b, c", "a",
+                                                    [](const std::string& v) {
+                                                      vf_calls[4]++;
+                                                      if (v != "a" && v != "b" && v != "c")
+                                                        throw std::invalid_argument("vf/string-abc: not one of a, b, c");
+                                                    }};
+
+static json vf_state()
+{
+  return json{{"vf/int-even", {{"calls", vf_calls[0]}, {"var", vf_int_even.get()}}},
+              {"vf/int-range", {{"calls", vf_calls[1]}, {"var", vf_int_range.get()}}},
+              {"vf/double-pos", {{"calls", vf_calls[2]}, {"var", hexf(vf_double_pos.get())}}},
+              {"vf/bool", {{"calls", vf_calls[3]}, {"var", vf_bool.get()}}},
+              {"vf/string-abc", {{"calls", vf_calls[4]}, {"var", vf_string.get()}}}};
+}
+
+/* every test flag is explicitly set once (typed API) so that all cases start from the same "not default any more" state,
+ * whatever ran before in this process; also used to put them back after an in-process case */
+static void vf_reset()
+{
+  cfg::set_value<int>("vf/int-even", 0);
+  cfg::set_value<int>("vf/int-range", 1);
+  cfg::set_value<double>("vf/double-pos", 1.0);
+  cfg::set_value<bool>("vf/bool", false);
+  cfg::set_value<std::string>("vf/string-abc", "a");
+}
+
+/* direct assignment to the variable bound to a flag (Flag::operator=), as sg_config_continue_after_help() or smpi_check_options() do */
+static void vf_poke(const std::string& name, const json& v)
+{
+  if (name == "vf/int-even")
+    vf_int_even = v.get<int>();
+  else if (name == "vf/int-range")
+    vf_int_range = v.get<int>();
+  else if (name == "vf/double-pos")
+    vf_double_pos = v.get<double>();
+  else if (name == "vf/bool")
+    vf_bool = v.get<bool>();
+  else if (name == "vf/string-abc")
+    vf_string = v.get<std::string>();
+}
 
 /* the variables that some items are bound to: they show that the item's callback ran */
 static json bound_vars()
@@ -127,6 +194,9 @@ static int run_case(const std::string& text)
   int argc = static_cast<int>(args.size());
   try {
     engine = new simgrid::s4u::Engine(&argc, argv.data());
+#ifdef VF_CONFIG_INPROC
+    vf_reset();
+#endif
   } catch (const std::exception& e) {
     emit(json{{"step", "engine"}, {"exc", exc_name(e)}, {"msg", std::string(e.what()).substr(0, 300)}});
     return 0;
@@ -139,6 +209,7 @@ static int run_ops(const json& in)
   json first{{"step", "engine"}};
   if (in.contains("read0"))
     first["read"] = read_items(in["read0"]);
+  first["vf"] = vf_state();
   emit(first);
   if (in.value("list", false)) {
     // XBT_HELP writes on stdout
@@ -162,6 +233,8 @@ static int run_ops(const json& in)
         cfg::set_parse(name + ":" + op["value"].get<std::string>());
       else if (how == "parse_raw") // several settings in one --cfg string
         cfg::set_parse(op["value"].get<std::string>());
+      else if (how == "poke")
+        vf_poke(name, op["value"]);
       else if (how == "string")
         cfg::set_as_string(name.c_str(), op["value"].get<std::string>());
       else if (how == "typed" || how == "c") {
@@ -194,6 +267,7 @@ static int run_ops(const json& in)
     if (op.contains("read"))
       o["read"] = read_items(op["read"]);
     o["bound"] = bound_vars();
+    o["vf"]    = vf_state();
     emit(o);
   }
   json last{{"step", "end"}};
@@ -221,6 +295,7 @@ static int run_ops(const json& in)
         else
           cfg::set_value<std::string>(name.c_str(), baseline[name].get<std::string>());
       }
+      vf_reset(); // also puts the bound variables back (a "poke" changes them without changing the item)
       ok = read_items(in["read_end"]) == baseline;
     } catch (...) {
       ok = false;
@@ -241,6 +316,7 @@ static void preload()
   static char name[]   = "config_driver";
   static char* argv[2] = {name, nullptr};
   engine               = new simgrid::s4u::Engine(&argc, argv);
+  vf_reset();
 #endif
 }
 
